@@ -46,6 +46,25 @@ fn run(ctx: &Ctx) {
     ctx.run_enum("types", types, true, "all 256 handshake type codes x 3 body shapes (empty, 5 bytes, a valid body for that code)", (0..768u32).map(|i| vec![(i / 3) as u8, (i % 3) as u8]));
     ctx.run_tape("large", large, ctx.pick(48, 600), 64);
     // (the sizes around the crate's other limits and the 24-bit maximum are enumerated; the tape only chooses kind and content)
+    // the one certificate whose TLS framing reads as DER: an entry of 0x308330 bytes starting `83 2e 30` makes the list bytes
+    // `30 83 30 83 2e 30 ..` - a SEQUENCE header whose length covers the list exactly (a parser that also accepts a bare certificate
+    // where the list should be cannot tell the two apart); alone, and followed by a second certificate
+    ctx.run_fn("der_lookalike", true, "Certificate messages whose first entry is 0x308330 bytes long and starts with 83 2e 30 (one entry; two entries)", |obs| {
+        for second in [false, true] {
+            obs.evals_add(1);
+            let mut c = vec![0x5au8; 0x30_8330];
+            c[..3].copy_from_slice(&[0x83, 0x2e, 0x30]);
+            let mut chain = vec![c];
+            if second {
+                chain.push(vec![0x30, 0x03, 0x02, 0x01, 0x05]);
+            }
+            let h = MHs::Certificate { chain };
+            check_roundtrip(&h, &[0x16, 0x03], obs)?;
+            obs.nontrivial(second as u64);
+        }
+        obs.sample(json!({"first_entry_bytes": 0x30_8330, "first_entry_starts": "83 2e 30"}));
+        Ok(())
+    });
     ctx.run_enum("huge", huge, false, "bodies of 2^20-1, 8 MiB + x, 10 MiB - 1, 10 MiB, 10 MiB + 1, 2^24 - 21 bytes (opaque kinds, Certificate, NewSessionTicket, CertificateStatus)", (0..ctx.pick(6, 48) as u8).map(|k| vec![k % 6, k, k.wrapping_mul(37), k.wrapping_mul(91), 3, 5, 8, 13]));
     ctx.run_tape("body_direct", body_direct, ctx.pick(60_000, 300_000), 200);
     ctx.run_tape("equality", equality, ctx.pick(120_000, 500_000), 500);
